@@ -258,4 +258,7 @@ MUTANTS = [
     ("c17-file-prefix-merges-inputs", "C17", "patches/r6-C17.diff", "fire", "C17-R9"),
     ("c18-part-range-check-by-sum", "C18", "patches/r6-C18.diff", "fire", "C18-FILE"),
     ("c19-single-file-scanned-whole", "C19", "patches/r6-C19.diff", "fire", "C19-G7"),
+    ("c20-rc-byte-table-padding-slip", "C20", "patches/r6-C20.diff", "fire", "C20-K6"),
+    ("c20-rc-byte-table-correct", "C20", "patches/r6-C20-twin.diff", "quiet", ""),
+    ("c18-rc-byte-table-correct", "C18", "patches/r6-C20-twin.diff", "quiet", ""),
 ]
